@@ -505,7 +505,7 @@ pub fn run(args: &Args) -> bool {
     }
     if want("routing") {
         let ctx = Ctx::new("C15", "routing", vmodel::ev::mix_seed(args.seed, "C15", "routing", args.shard), args);
-        ctx.set_rule("part b: all 128 override patterns of a probe FromMeta implementer x 19 item forms (word, 3 lists, 7 literal kinds, 4 strings whose text reads like a boolean / number / character, 4 non-literal expressions) x plain / invisible group (in the token stream, and 1-3 Expr::Group layers built as syntax-tree nodes) x hook outcome (ok, unspanned error, error with own span) x from_meta / from_nested_meta (literals also in nested-literal position): exactly the most general overridden hook on the documented chain is called once, otherwise the documented default error; errors come back spanned inside the item unless the hook attached its own span. Exhaustive.");
+        ctx.set_rule("part b: all 128 override patterns of a probe FromMeta implementer x 19 item forms (word, 3 lists, 7 literal kinds, 4 strings whose text reads like a boolean / number / character, 4 non-literal expressions) x plain / invisible group (in the token stream, and 1-3 Expr::Group layers built as syntax-tree nodes) x hook outcome (ok, unspanned error, error with own span) x from_meta / from_nested_meta (literals also in nested-literal position): exactly the most general overridden hook on the documented chain is called once, otherwise the documented default error; errors come back spanned inside the item unless the hook attached its own span; the default rejection of each of 36 expression kinds names the kind (syn variant name in snake case). Exhaustive.");
         if let Some((_, case)) = &replay {
             let r: Route = serde_json::from_value(case.clone()).expect("bad replay");
             ok &= run_list(&ctx, vec![r], check_route);
@@ -534,6 +534,41 @@ pub fn run(args: &Args) -> bool {
                         }
                     }
                 }
+                Ok(())
+            });
+            // the default rejection of a non-literal value names the kind of expression: syn's variant name in snake case
+            // (`Expr::MethodCall` -> `method_call`), one word per kind. (`&raw const x` - `Expr::RawAddr`, added to syn after the
+            // table was written - falls under the catch-all "unknown"; the enum is non-exhaustive, so that is the declared
+            // behaviour for kinds the table does not know, and it is not in this list.)
+            const KIND_SRCS: &[&str] = &[
+                "[1, 2]", "x = y", "x = y = 2", "async { 1 }", "x.await", "a + b", "x += 1", "{ 1 }", "break", "f(1)", "x as u8", "|a| a", "const { 1 }", "continue", "x.f",
+                "for a in b { }", "if a { 1 } else { 2 }", "x[0]", "_", "let a = b", "loop { }", "m!()", "match x { _ => 1 }", "x.m()", "(x)", "a::b", "1..2",
+                "&x", "[x; 2]", "return x", "S { a: 1 }", "x?", "(1, 2)", "!x", "-x", "unsafe { 1 }", "while a { }", "yield x",
+            ];
+            ok &= run_list(&ctx, KIND_SRCS.to_vec(), |ctx, src| {
+                fresh_spans();
+                ctx.set_render(json!({"default_rejection_of": src}));
+                let m: syn::Meta = match syn::parse_str(&format!("p = {}", src)) {
+                    Ok(m) => m,
+                    Err(e) => fail!("c15:harness-render", "p = {}: {}", src, e),
+                };
+                let value = match &m {
+                    syn::Meta::NameValue(nv) => &nv.value,
+                    _ => unreachable!(),
+                };
+                let dbg = format!("{:?}", value);
+                let variant: String = dbg.trim_start_matches("Expr::").chars().take_while(|c| c.is_alphanumeric()).collect();
+                let mut snake = String::new();
+                for (i, ch) in variant.chars().enumerate() {
+                    if ch.is_uppercase() && i > 0 {
+                        snake.push('_');
+                    }
+                    snake.extend(ch.to_lowercase());
+                }
+                ctx.class(&format!("expression-kind:{}", snake));
+                let got = catch(|| probes::call_meta(0, &m)).map_err(|p| Fail::new("c15:panic", format!("`p = {}` panicked: {}", src, p)))?;
+                let msg = got.err().map(|e| e.to_string()).unwrap_or_else(|| "Ok".into());
+                ensure!(msg == format!("Unexpected type `{}`", snake), "c15:default-error-kind", "default rejection of `p = {}` (syn: Expr::{}) reads {:?}, expected \"Unexpected type `{}`\"", src, variant, msg, snake);
                 Ok(())
             });
             ctx.set_exhaustive(true);
